@@ -2,6 +2,7 @@ package props
 
 import (
 	"fmt"
+	"math"
 	"math/big"
 	"strings"
 	"time"
@@ -174,6 +175,19 @@ func encPolicyMsg(en *env.Enc, e *env.Env, msg sdk.Msg) bool {
 		en.I(2)
 		encField(en, m.PmtpPeriodGovernanceRate)
 		en.I(m.PmtpPeriodEpochLength).I(m.PmtpPeriodStartBlock).I(m.PmtpPeriodEndBlock)
+		// the block rate of the policy as the handler's float arithmetic gives it (an input of the model, like the block rate
+		// PolicyStart stores): for the rate the message carries, or the stored one when it carries none
+		gov := e.App.ClpKeeper.GetPmtpParams(e.Ctx()).PmtpPeriodGovernanceRate
+		if m.PmtpPeriodGovernanceRate != "" {
+			if g, err := sdk.NewDecFromStr(m.PmtpPeriodGovernanceRate); err == nil {
+				gov = g
+			}
+		}
+		if br := pmtpBlockRateOracle(gov, m.PmtpPeriodEpochLength, m.PmtpPeriodStartBlock, m.PmtpPeriodEndBlock); br != nil {
+			en.I(1).Z(br)
+		} else {
+			en.I(0)
+		}
 	case *clptypes.MsgModifyPmtpRates:
 		en.I(3)
 		encField(en, m.BlockRate)
@@ -192,6 +206,26 @@ func encPolicyMsg(en *env.Enc, e *env.Env, msg sdk.Msg) bool {
 		return false
 	}
 	return true
+}
+
+// pmtpBlockRateOracle: (1 + governance rate)^(epochs / blocks) - 1 in float64, printed with 18 decimals and parsed as a Dec:
+// the arithmetic of PolicyStart and of the UpdatePmtpParams handler (x/clp/keeper/pmtp.go), which the model takes as an input.
+func pmtpBlockRateOracle(gov sdk.Dec, epochLen, start, end int64) *big.Int {
+	if epochLen <= 0 || gov.IsNil() || gov.LTE(sdk.NewDec(-1)) {
+		return nil
+	}
+	blocks := end - start + 1
+	if blocks == 0 {
+		return nil
+	}
+	epochs := blocks / epochLen
+	base := sdk.NewDec(1).Add(gov).MustFloat64()
+	v := math.Pow(base, float64(epochs)/float64(blocks)) - 1
+	d, err := sdk.NewDecFromStr(fmt.Sprintf("%.18f", v))
+	if err != nil {
+		return nil
+	}
+	return d.BigInt()
 }
 
 // polCases collects the encoded correspondence cases of one check run.
@@ -352,6 +386,10 @@ func buildPolicyMsg(e *env.Env, rng *chain.Rng, kind int) (string, sdk.Msg, map[
 		m := &clptypes.MsgModifyPmtpRates{Signer: adm, RunningRate: "1000000000000000000000000000000000000000000000000000000000000"}
 		f["running_rate"] = m.RunningRate
 		return "MsgModifyPmtpRates", m, f
+	case 105: // corpus, finding F-29: a second policy of rate -0.5 after a first one of -0.5
+		m := &clptypes.MsgUpdatePmtpParams{Signer: adm, PmtpPeriodGovernanceRate: "-0.5", PmtpPeriodEpochLength: 1, PmtpPeriodStartBlock: h + 1, PmtpPeriodEndBlock: h + 1}
+		f["gov_rate"], f["epoch_length"], f["start"], f["end"] = m.PmtpPeriodGovernanceRate, m.PmtpPeriodEpochLength, m.PmtpPeriodStartBlock, m.PmtpPeriodEndBlock
+		return "MsgUpdatePmtpParams", m, f
 	case 0: // reward period
 		p := &clptypes.RewardPeriod{RewardPeriodId: "rp1"}
 		if rng.Intn(2) == 0 {
@@ -484,9 +522,16 @@ func outsideEnvelope(msg sdk.Msg) string {
 }
 
 // runBlocks runs n blocks with traffic; returns the first hook panic.
+// c10MoreTraffic, when set, is delivered in every block beside the random traffic (corpus cases that need a particular user
+// message in the blocks after the administrator's)
+var c10MoreTraffic func(e *env.Env)
+
 func runBlocks(e *env.Env, rng *chain.Rng, n int, pc *polCases, rep *report.Report, desc map[string]interface{}) (done int, panicMsg, where string) {
 	for b := 0; b < n; b++ {
 		traffic(e, rng)
+		if c10MoreTraffic != nil {
+			c10MoreTraffic(e)
+		}
 		if e.EndBlock() {
 			return b, fmt.Sprint(e.HookPanic), fmt.Sprintf("EndBlock of height %d", e.Height)
 		}
@@ -526,7 +571,7 @@ func C10(c Ctx) *report.Report {
 		coins := sdk.NewCoins(sdk.NewCoin("ceth", sdk.NewIntFromBigInt(chain.E(20))))
 		e.Tx(e.Users[2], clptypes.NewMsgAddLiquidityToRewardsBucketRequest(e.Users[2].Addr.String(), coins))
 		kind := rng.Intn(8)
-		if i < 5 {
+		if i < 6 {
 			kind = 100 + i // corpus first: the recorded findings F-15, F-16, F-7 and F-25; a rate that makes every position's health overflow
 		}
 		cs := c10Case{ID: id}
@@ -589,6 +634,25 @@ func C10(c Ctx) *report.Report {
 				where = "after-end"
 			}
 			rep.Count("admin.pmtp-message-at." + where)
+		}
+		c10MoreTraffic = nil
+		if kind == 105 {
+			// corpus, finding F-29: ratio-shifting policies add up. A first policy of rate -0.5 has run (running rate -0.5, kept
+			// as the rate between policies); the message below asks for a second one of -0.5, which would end at exactly -1.
+			// Rewards are re-invested into the pools at the end of every hour epoch (every third block) and the bucket is refilled
+			// by a user in every block, so the epoch hook prices an asymmetric add with the running rate of the moment.
+			e.BlockStep = 25 * time.Minute
+			mustOK(e.UpdateRewardsParams(0, 0, 0, "hour", false), "rewards re-invested every hour")
+			m := &clptypes.MsgUpdatePmtpParams{Signer: e.Admin.Addr.String(), PmtpPeriodGovernanceRate: "-0.5", PmtpPeriodEpochLength: 1, PmtpPeriodStartBlock: e.Height + 1, PmtpPeriodEndBlock: e.Height + 1}
+			mustOK(e.Tx(e.Admin, m), "first policy")
+			if d, p, w := runBlocks(e, rng, 2, nil, rep, nil); p != "" {
+				rep.Violate("C10/hook-panic/setup", p, map[string]interface{}{"where": w, "blocks": d})
+			}
+			cs.Second = fmt.Sprintf("rewards are re-invested at the end of every hour epoch (25-minute blocks); a first ratio-shifting policy of rate -0.5 over block %d alone has run: running rate %s; a user adds 1e20 ceth to the rewards bucket in every block",
+				e.Height-1, e.App.ClpKeeper.GetPmtpRateParams(e.Ctx()).PmtpCurrentRunningRate)
+			c10MoreTraffic = func(e *env.Env) {
+				e.Tx(e.Users[2], clptypes.NewMsgAddLiquidityToRewardsBucketRequest(e.Users[2].Addr.String(), coins))
+			}
 		}
 		name, msg, fields := buildPolicyMsg(e, rng, kind)
 		cs.Kind, cs.Fields = name, fields
